@@ -218,7 +218,7 @@ func Enum(c explore.Chooser) *prog.Program {
 
 	loc := s.Pick("T1.loc", "analysed-file", "other-file", "sub-package", "both-packages")
 	t1 := enumType(s, "T1", "Level", "Lv", "int")
-	second := s.Pick("T2", "absent", "present", "present-in-sub")
+	second := s.Pick("T2", "absent", "present", "present-in-sub", "present-in-same-named-package")
 	t2 := ""
 	if second != "absent" {
 		t2 = enumType(s, "T2", "Mode", "Md", "string")
@@ -248,6 +248,7 @@ func Enum(c explore.Chooser) *prog.Program {
 		needSub = true
 	}
 	t2ref := ""
+	needTwin := false
 	switch second {
 	case "present":
 		a.WriteString(t2)
@@ -256,6 +257,12 @@ func Enum(c explore.Chooser) *prog.Program {
 		sub.WriteString(t2)
 		t2ref = "sub.Mode"
 		needSub = true
+	case "present-in-same-named-package":
+		// two imported packages share the package name "sub": .../enums/sub and .../enums/twin/sub
+		sub.WriteString("type Tag int\n\nconst (\n\tTagA Tag = iota // first tag\n\tTagB\n)\n\n")
+		needSub = true
+		needTwin = true
+		t2ref = "twin.Mode"
 	}
 
 	var fields []string
@@ -283,11 +290,16 @@ func Enum(c explore.Chooser) *prog.Program {
 	if t2ref != "" {
 		addRef("F2", t2ref)
 	}
+	if needTwin {
+		addRef("F3", "sub.Tag")
+	}
 	fields = append(fields, "\tN int")
 
 	var hdr strings.Builder
 	hdr.WriteString("package enums\n\n")
-	if needSub {
+	if needSub && needTwin {
+		fmt.Fprintf(&hdr, "import (\n\t%q\n\ttwin %q\n)\n\n", subPath, rootPath+"/twin/sub")
+	} else if needSub {
 		fmt.Fprintf(&hdr, "import %q\n\n", subPath)
 	}
 	asrc := hdr.String() + strings.TrimPrefix(a.String(), "package enums\n\n") + "type Holder struct {\n" + strings.Join(fields, "\n") + "\n}\n"
@@ -295,6 +307,9 @@ func Enum(c explore.Chooser) *prog.Program {
 	p := &prog.Program{Family: "F-enum", Analysed: []string{"a.go"}, Features: s.Feats}
 	if needSub {
 		p.Pkgs = append(p.Pkgs, &prog.Pkg{Path: subPath, Name: "sub", Files: []prog.File{{Name: "sub.go", Src: sub.String()}}})
+	}
+	if needTwin {
+		p.Pkgs = append(p.Pkgs, &prog.Pkg{Path: rootPath + "/twin/sub", Name: "sub", Files: []prog.File{{Name: "sub.go", Src: "package sub\n\n" + t2}}})
 	}
 	p.Pkgs = append(p.Pkgs, &prog.Pkg{Path: rootPath, Name: "enums", Files: []prog.File{{Name: "a.go", Src: asrc}, {Name: "b.go", Src: bfile.String()}}})
 	return p
